@@ -5035,7 +5035,11 @@ class Entity(object, metaclass=EntityMeta):
                       'Value of %s.%s for %s was updated outside of current transaction (was: %r, now: %r)'
                       % (obj.__class__.__name__, attr.name, obj, old_dbval, new_dbval))
 
+        refused = None
         for attr, new_val in list(new_vals.items()):
+            if refused is not None:  # the rest of a refused row is dropped, what was applied before is completed below
+                del new_vals[attr]
+                continue
             new_dbval = new_dbvals[attr]
             old_dbval = get_dbval(attr, NOT_LOADED)
             bit = obj._bits_except_volatile_[attr]
@@ -5043,7 +5047,12 @@ class Entity(object, metaclass=EntityMeta):
                 obj._dbvals_[attr] = new_dbval
                 del new_vals[attr]
                 continue
-            if attr.reverse: attr.db_update_reverse(obj, old_dbval, new_dbval)
+            if attr.reverse:
+                try: attr.db_update_reverse(obj, old_dbval, new_dbval)
+                except UnrepeatableReadError as e:
+                    refused = e
+                    del new_vals[attr]
+                    continue
             obj._dbvals_[attr] = new_dbval
 
         for attr, new_val in new_vals.items():
@@ -5063,6 +5072,7 @@ class Entity(object, metaclass=EntityMeta):
                     cache.db_update_composite_index(obj, attrs, prev_key_vals, new_key_vals)
 
         obj._vals_.update(new_vals)
+        if refused is not None: raise refused
     def _delete_(obj, undo_funcs=None):
         status = obj._status_
         if status in del_statuses: return
